@@ -63,17 +63,27 @@ def roundScaled (m : Nat) (e d : Int) : Nat :=
   let (a, b) := frac m e d
   divHE a b
 
+/-- `2^k ≤ num/den` -/
+def leP2 (num den : Nat) (k : Int) : Bool :=
+  if k ≥ 0 then den * 2 ^ k.toNat ≤ num else den ≤ num * 2 ^ (-k).toNat
+
+/-- `⌊log2 (num/den)⌋` for `num, den > 0`: the estimate from the bit lengths, corrected by one -/
+def floorLog2 (num den : Nat) : Int :=
+  let k0 : Int := Int.ofNat num.log2 - Int.ofNat den.log2
+  if leP2 num den k0 then (if leP2 num den (k0 + 1) then k0 + 1 else k0) else k0 - 1
+
+/-- `num/den/2^e` rounded half-even to an integer -/
+def roundAt (num den : Nat) (e : Int) : Nat :=
+  if e ≥ 0 then divHE num (den * 2 ^ e.toNat) else divHE (num * 2 ^ (-e).toNat) den
+
 /-- The `prec`-bit binary floating-point number nearest to `num/den` (ties to
 even) whose unit in the last place is at least `2^emin`; `none` on overflow past
 `emaxE` (the largest exponent of the integer significand). -/
 def nearestG (prec : Nat) (emin emaxE : Int) (num den : Nat) : Option (Nat × Int) :=
   if num == 0 then some (0, emin) else
-  let k0 : Int := Int.ofNat num.log2 - Int.ofNat den.log2
-  let le (k : Int) : Bool := if k ≥ 0 then den * 2 ^ k.toNat ≤ num else den ≤ num * 2 ^ (-k).toNat
-  -- k = ⌊log2 (num/den)⌋
-  let k := if le k0 then (if le (k0 + 1) then k0 + 1 else k0) else k0 - 1
+  let k := floorLog2 num den
   let e : Int := max (k - (Int.ofNat prec - 1)) emin
-  let m := if e ≥ 0 then divHE num (den * 2 ^ e.toNat) else divHE (num * 2 ^ (-e).toNat) den
+  let m := roundAt num den e
   let (m, e) := if m == 2 ^ prec then (2 ^ (prec - 1), e + 1) else (m, e)
   if e > emaxE then none else some (m, e)
 
